@@ -245,9 +245,17 @@ def run_case(case):
     streamless = [[0, 1 + sum(map(ord, nm)) % 1000] for nm in (["dir-between", "zero-ü"] if len(sizes) >= 2 and not case.get("targets") else [])]
     trace = [{"e": "arch", "sizes": real_sizes, "damaged": sorted(case.get("damaged", [])), "mode": mode, "delivered": [list(k) for k in want],
               "streamless": streamless, "failsink": sorted(case.get("failsink", []))}]
+    cwd0 = os.getcwd()
     try:
         src = path if mode in ("thread", "process", "two") else io.BytesIO(raw)
+        if case.get("relname") and src is path:
+            # the archive is opened by a relative name and the caller changes directory before extracting
+            os.chdir(wd)
+            src = "a.7z"
         objs = [py7zr.SevenZipFile(src, "r", mp=(mode == "process"))]
+        if case.get("relname"):
+            os.makedirs(os.path.join(wd, "elsewhere"), exist_ok=True)
+            os.chdir(os.path.join(wd, "elsewhere"))
         if mode == "two":
             objs.append(py7zr.SevenZipFile(path, "r"))
         delay = {"none": None, "fast": 0, "slow": 0.12}.get(case.get("callback", "none"))
@@ -255,9 +263,21 @@ def run_case(case):
         cbs = [cb]
         results = [None] * len(objs)
 
+        rounds = {"n": 0}
+
         def do(oi):
             z = objs[oi]
             z.worker._vobj = oi
+            rounds["n"] += 1
+            use_cb = None
+            if oi == 0 and cb is not None and rounds["n"] not in case.get("nocb", []):
+                # every extraction that reports does so to a callback object of its own, numbered in the order of use
+                if rounds.get("used"):
+                    nxt = make_callback(py7zr, log, 0 if len(cbs) % 2 else delay, names_rev)
+                    nxt.cbid = len(cbs) + 1
+                    cbs.append(nxt)
+                rounds["used"] = True
+                use_cb = cbs[-1]
             res = {"e": "result", "raised": False, "exc": "", "good": [], "bad": []}
             try:
                 if case.get("sink", "factory") == "path":
@@ -265,9 +285,9 @@ def run_case(case):
                     for nm in unwritable:
                         os.makedirs(os.path.join(od, nm, "occupied"))
                     if case.get("targets"):
-                        z.extract(od, targets=case["targets"], callback=cbs[-1] if oi == 0 else None)
+                        z.extract(od, targets=case["targets"], callback=use_cb)
                     else:
-                        z.extractall(od, callback=cbs[-1] if oi == 0 else None)
+                        z.extractall(od, callback=use_cb)
                     got = {}
                     for k, nm in names.items():
                         p = os.path.join(od, nm)
@@ -276,9 +296,9 @@ def run_case(case):
                 else:
                     fac = GatedFactory(oi)
                     if case.get("targets"):
-                        z.extract(targets=case["targets"], factory=fac, callback=cbs[-1] if oi == 0 else None)
+                        z.extract(targets=case["targets"], factory=fac, callback=use_cb)
                     else:
-                        z.extractall(factory=fac, callback=cbs[-1] if oi == 0 else None)
+                        z.extractall(factory=fac, callback=use_cb)
                     got = {names_rev[nm]: p.buf.getvalue() for nm, p in fac.products.items() if nm in names_rev}
                 for k, d in got.items():
                     (res["good"] if d == contents[k] else res["bad"]).append(list(k))
@@ -300,10 +320,6 @@ def run_case(case):
             for _ in range(case.get("repeat", 1) - 1):      # further extractions in the same session, after reset()
                 first = results[0]
                 objs[0].reset()
-                if cb is not None:                           # every extraction reports to its own callback object
-                    nxt = make_callback(py7zr, log, 0 if len(cbs) % 2 else delay, names_rev)
-                    nxt.cbid = len(cbs) + 1
-                    cbs.append(nxt)
                 do(0)
                 if first["raised"] or first["bad"]:
                     results[0] = first
@@ -326,6 +342,7 @@ def run_case(case):
         return {"trace": trace, "extra": extra}
     finally:
         P.Worker.extract_single = orig_es
+        os.chdir(cwd0)
         os.mkdir = o_mkdir
         P.get_memory_limit = o_limit
         Cm.get_default_blocksize = o_block
